@@ -142,15 +142,29 @@ Proof.
       eapply forallb_impl; [|exact Hall]. intros x Hx. apply word_rest_ok in Hx. tauto.
 Qed.
 
+(* the regenerated driver table still contains every core reserved word (breaks when a word is dropped from the source) *)
+Lemma core_in_driver : forallb (fun w => mem_str w driver_reserved_words) core_reserved_words = true.
+Proof. vm_compute. reflexivity. Qed.
+
+Lemma core_sub : forall w, mem_str w core_reserved_words = true -> driver_reserved w = true.
+Proof.
+  intros w H. unfold mem_str in H. apply existsb_exists in H. destruct H as (x & Hin & Heq). apply str_eqb_eq in Heq. subst x.
+  pose proof core_in_driver as Hc. rewrite forallb_forall in Hc. exact (Hc w Hin).
+Qed.
+
 Lemma unquoted_ok_strict : forall n, maybe_escape_name_d false n = n ->
   lex_ident n = Some (n, []) /\ reserved n = false.
 Proof.
   intros n H. unfold maybe_escape_name_d in H. destruct (is_valid_name_d false n) eqn:Hv.
   2:{ exfalso. exact (escape_name_neq n H). }
-  unfold is_valid_name_d in Hv. destruct (reserved (py_lower n)) eqn:Hres; [discriminate|].
+  unfold is_valid_name_d in Hv. destruct (driver_reserved (py_lower n)) eqn:Hres; [discriminate|].
   apply strict_word_lexes in Hv. destruct Hv as [Hlow (c & n' & Hn & Hlet & Hdq & Hspan)].
-  unfold py_lower in Hres. rewrite Hlow in Hres. split; [|exact Hres].
-  unfold lex_ident. rewrite Hn at 1. rewrite Hdq, Hlet. rewrite Hspan, Hlow, Hres. reflexivity.
+  unfold py_lower in Hres. rewrite Hlow in Hres.
+  assert (Hr : reserved n = false).
+  { unfold reserved. rewrite Hres. destruct (mem_str n core_reserved_words) eqn:E; [|reflexivity].
+    apply core_sub in E. congruence. }
+  split; [|exact Hr].
+  unfold lex_ident. rewrite Hn at 1. rewrite Hdq, Hlet. rewrite Hspan, Hlow, Hr. reflexivity.
 Qed.
 
 (* ---------- integers ---------- *)
